@@ -81,7 +81,8 @@ MStep(mm, e, idx) ==
             b4 == IF ~(m.lastFail \subseteq S) THEN Flag(b3, "C03", "C03_KeptOnFailure", idx) ELSE b3
             b5 == IF \E x \in S : x \in m.okset /\ x \in DOMAIN m.prod /\ m.sub[m.prod[x]].thr = "L1"
                   THEN Flag(b4, "C03", "C03_ExactlyOnce", idx) ELSE b4
-            judge == ~m.dirty /\ Len(m.arr) > 0 /\ m.lastFail = {} /\ Unfinished(m) = {}
+            judge == ~m.dirty /\ Len(m.arr) > 0 /\ Unfinished(m) = {}
+                     /\ (m.lastFail = {} \/ m.arr[1][2] = 0)
         IN [m EXCEPT !.cur = e.n, !.curS = S, !.bad = b5,
                      \* (only windows whose timing is determined by immediate submissions alone: every non-immediate
                      \*  submission so far was already delivered before this call)
@@ -92,16 +93,22 @@ MStep(mm, e, idx) ==
                      !.flush = FALSE,
                      !.pj = IF judge
                             THEN [on |-> TRUE, t |-> e.t, la |-> m.arr[Len(m.arr)][1], S |-> S,
-                                  want |-> ElemsOf(m, ArrIds(m)), late |-> ~GapsOk(m)]
+                                  want |-> ElemsOf(m, ArrIds(m)) \cup m.lastFail, late |-> ~GapsOk(m)]
                             ELSE NoJ]
     [] e.e = "FuncEnd" ->
+        \* A failed call is retried like a fresh burst that arrived when it failed: the quiet period starts over at
+        \* that instant (pseudo-arrival 0), later submissions extend it, and the retry carries the failed arguments too.
+        LET undelivered == \E i \in DOMAIN m.sub : m.sub[i].t >= 0 /\ ~(ElemsOf(m, {i}) \subseteq (m.okset \cup m.curS)) IN
         [m EXCEPT !.cur = 0,
                   !.okset = IF e.how = "ok" THEN @ \cup m.curS ELSE @,
                   !.lastFail = IF e.how = "fail" THEN m.curS ELSE IF e.how = "ok" THEN {} ELSE @,
-                  !.arr = <<>>,
-                  \* arrivals during the run / a failed run make the next window's timing unjudged
-                  !.dirty = (e.how # "ok") \/ (\E i \in DOMAIN m.sub : m.sub[i].t >= 0 /\ ~(ElemsOf(m, {i}) \subseteq (m.okset \cup m.curS)))
-                            \/ Unfinished(m) # {}]
+                  !.arr = IF e.how = "fail" THEN << <<e.t, 0>> >> ELSE <<>>,
+                  !.lastImm = IF e.how = "fail" THEN e.t ELSE @,
+                  \* arrivals during the run / a cancelled run make the next window's timing unjudged
+                  !.dirty = IF e.how = "fail"
+                            THEN (\E i \in DOMAIN m.sub : m.sub[i].t >= 0 /\ ~(ElemsOf(m, {i}) \subseteq (m.okset \cup m.curS))
+                                                            /\ ~(ElemsOf(m, {i}) \subseteq m.curS)) \/ Unfinished(m) # {}
+                            ELSE (e.how # "ok") \/ undelivered \/ Unfinished(m) # {}]
     [] e.e = "WaitCall" ->
         [m EXCEPT !.waits = Put(@, e.w, [thr |-> e.thr, pend |-> TRUE, cancel |-> e.cancel,
                                          before |-> {i \in DOMAIN m.sub : m.sub[i].thr = e.thr}]),
